@@ -376,8 +376,8 @@ reg(C10("C10"))
 class C20(Check):
     rule = DOC_RULE + "; writer failing at every call index up to 40 (first clause); canonical-style documents from the abstract-document generator (second clause)"
     obligations = [("misc", "Sticky", "C20_sticky"), ("misc", "Sticky", "C20_first_error"), ("misc", "Sticky", "C20_healthy"), ("main", "Entry", "formatDoc_formatRoots"),
-                   ("main", "SliceFormat", "C20_format_preserves_render"), ("main", "SliceFormat", "C20_format_idempotent"), ("main", "SliceFormat", "formatDoc_text")]
-    assumptions = ["clause 1 proved on the formatWriter model for any operation sequence; clause 2 is proved end to end on a slice (SliceFormat.C20_format_preserves_render / C20_format_idempotent: for every one-line text paragraph of any length, formatting preserves the rendering and is idempotent, with no side condition since repair 1fffec0: the proof attempt found defect D25); on the rest of the construct set fixed in DESIGN.md section 7 it is decided by the oracle on generated canonical documents",
+                   ("main", "SliceFormat2", "C20_blocks"), ("main", "SliceFormat2", "C20_code_refuted"), ("main", "SliceParas", "C20_paras_format"), ("main", "SliceFormat", "C20_format_preserves_render"), ("main", "SliceFormat", "C20_format_idempotent"), ("main", "SliceFormat", "formatDoc_text")]
+    assumptions = ["clause 1 proved on the formatWriter model for any operation sequence; clause 2 is proved end to end on multi-block documents (SliceFormat2.C20_blocks: any number, in any order, of one-line text paragraphs, ATX headings 1-6, thematic breaks and backtick-fenced code blocks whose lines are free of LF, CR, NUL and TAB and do not close the fence: formatDoc has the stated output, preserves the rendering in every configuration without tag filter, and is idempotent); with a TAB after a backtick run inside code the two equations are false (C20_code_refuted: the formatter's fence-length scan does not treat run + TAB as fence-like while the parser accepts trailing tabs after a closing fence; confirmed on the implementation; tabs are outside the canonical style fixed in DESIGN.md section 7, so this is recorded as an observation, not as a finding of the property); earlier, on one paragraph (SliceFormat.C20_format_preserves_render / C20_format_idempotent: for every one-line text paragraph of any length, formatting preserves the rendering and is idempotent, with no side condition since repair 1fffec0: the proof attempt found defect D25); on the rest of the construct set fixed in DESIGN.md section 7 it is decided by the oracle on generated canonical documents",
                    "determinism and 'tree untouched' are observed on the implementation"]
 
     def jobs(self, seed, tier):
